@@ -13,10 +13,11 @@ class Spec(runner.Spec):
         "the compositional mirror Proto/Codec.lean is tied to ProtobufWriter/ProtobufReader by differential execution over the zoo: round trips and both writer back ends (stream proto-rt), hostile octets (stream proto-dec)",
         "a reader that does not terminate is observed as `abort` (address-space limit of the harness) and modelled as `panic`",
         "u32 overflow of tag_counter (more than 2^32 components in one message) is not modelled",
+        "INTEGER: theorems int_in_region_generated / int_roundtrip_generated speak about the descriptor the converter produces (Codegen/IntType.lean: Rust type and constraint constants, the model of C15, tied to the code by ./check C15); the zoo holds extensible and non-extensible roots at the 32-bit boundaries, and the boundary values p30 / n30 / p32 (2^30, -2^30-1, 2^32+5: the former witnesses of F-proto-int-ext) are sent for every type (histogram tags int-xout / int-x32 / int-x30)",
     ]
     trusted_base = [
         "Lean 4.33 kernel; axioms per theorem under coverage.theorems (allowed: propext, Classical.choice, Quot.sound)",
         "tools/extract_consts.py (PROTO_FORMAT_* wire type codes)",
-        "hand-written mirrors Proto/Wire.lean (protocol/protobuf/mod.rs), Proto/Codec.lean (rw/proto_write.rs, rw/proto_read.rs, peq.rs); Uper/Impl.lean for utf8Decode and castInt",
+        "hand-written mirrors Proto/Wire.lean (protocol/protobuf/mod.rs), Proto/Codec.lean (rw/proto_write.rs, rw/proto_read.rs, peq.rs); Uper/Impl.lean for utf8Decode and castInt; Codegen/IntType.lean (asn1rs-model/src/rust.rs: the Rust integer type and the constants of a constraint) for the two INTEGER theorems",
         "harness/src/dynval.rs (TyGen/TreeWriter/ValReader), harness/src/proto.rs, Driver/ProtoStream.lean, tools/proto_streams.py (ProtobufEq relation, boundary values, mutation generator)",
     ]
